@@ -501,6 +501,8 @@ func runC13(r *Run, replay *Case) {
 			}
 		case "alternation", "alternation-loop":
 			c13TypeAlternation(r)
+		case "nameclash":
+			c13NameClash(r)
 		case "conv":
 			d := map[string]any{}
 			for _, a := range c13Args {
@@ -551,6 +553,7 @@ func runC13(r *Run, replay *Case) {
 	}
 	c13ConvCases(r)
 	c13TypeAlternation(r)
+	c13NameClash(r)
 	// built-in-only pipe chains: real engine vs the Lean pipe interpreter (parsePipeExpr / evalPipe / callBuiltin), byte for byte
 	heads := []string{"s", "t", "e", "n", "lst", "obj.k", "st.Y", "missing", "'lit'", "upper(s)", "len(lst)", "digits"}
 	segs := []string{"upper", "lower", "trim", "len", "string", "escape", "default('d')", "default(t)", "default(missing)", "default('')", "default(\"s\")", "default('t')", "default(\"a, b\")", "default(\"it's, x\")", "default('5\", w') | upper", "nosuch", "upper(1)", "default", "upper()"}
@@ -583,6 +586,54 @@ func runC13(r *Run, replay *Case) {
 				tpl = `<p v-show="` + e + `">x</p>`
 			}
 			r.Add(pageCase("pipe:"+pos, map[string]string{"p.vuego": tpl}, nil, "p.vuego", c13Env, "pos:"+pos, "pipe-builtin"))
+		}
+	}
+}
+
+
+// a VARIABLE whose name is also the name of a registered template function (built-in or custom) is the variable wherever a path is allowed:
+// only `name(` is a call
+func c13NameClash(r *Run) {
+	env := map[string]any{"title": "Hello", "type": "kind", "trim": "x y", "default": "dflt", "json": "j", "double": 21, "string": "str", "int": 0, "empty": ""}
+	for _, name := range []string{"title", "type", "trim", "default", "json", "double", "string", "int"} {
+		want := fmt.Sprint(env[name])
+		truthy := want != "" && want != "0"
+		for _, pos := range []string{"text", "attr", "if", "elseif", "show", "class", "negated-if"} {
+			var tpl string
+			switch pos {
+			case "text":
+				tpl = "<p>[[{{ " + name + " }}]]</p>"
+			case "attr":
+				tpl = `<p :data-v="` + name + `">x</p>`
+			case "if":
+				tpl = `<p v-if="` + name + `">[[T]]</p><p v-else>[[F]]</p>`
+			case "elseif":
+				tpl = `<p v-if="empty">n</p><p v-else-if="` + name + `">[[T]]</p><p v-else>[[F]]</p>`
+			case "show":
+				tpl = `<p v-show="` + name + `">x</p>`
+			case "class":
+				tpl = `<p :class="{on: ` + name + `}">x</p>`
+			case "negated-if":
+				tpl = `<p v-if="!` + name + `">[[F]]</p><p v-else>[[T]]</p>`
+			}
+			res := renderPage(map[string]string{"p.vuego": tpl}, "p.vuego", env, vuego.WithFuncs(c13Funcs()))
+			c := &Case{Name: "name clash " + name + " in " + pos, Input: map[string]any{"stream": "nameclash", "name": name, "pos": pos}, Impl: res.canon(), Oracle: &Verdict{OK: true}, Key: "clash|" + name + "|" + pos, Tags: []string{"stream:nameclash", "pos:" + pos}}
+			cls := "variable-named-like-function:" + pos
+			switch {
+			case res.Err != "" || res.Panic != "" || res.Timeout:
+				c.Oracle = &Verdict{OK: false, Class: cls, Detail: fmt.Sprintf("%s with the variable %s=%v: %+v", tpl, name, env[name], res)}
+			case pos == "text" && !strings.Contains(res.Out, "[["+want+"]]"):
+				c.Oracle = &Verdict{OK: false, Class: cls, Detail: fmt.Sprintf("{{ %s }} prints %q, the variable holds %q", name, res.Out, want)}
+			case pos == "attr" && truthy && !strings.Contains(res.Out, `data-v="`+want+`"`):
+				c.Oracle = &Verdict{OK: false, Class: cls, Detail: fmt.Sprintf(":data-v=%s gives %q, the variable holds %q", name, res.Out, want)}
+			case (pos == "if" || pos == "elseif" || pos == "negated-if") && strings.Contains(res.Out, "[[T]]") != truthy:
+				c.Oracle = &Verdict{OK: false, Class: cls, Detail: fmt.Sprintf("%s: branch %q, the variable holds %q", tpl, res.Out, want)}
+			case pos == "show" && strings.Contains(res.Out, "display:none") == truthy:
+				c.Oracle = &Verdict{OK: false, Class: cls, Detail: fmt.Sprintf("%s: %q, the variable holds %q", tpl, res.Out, want)}
+			case pos == "class" && strings.Contains(res.Out, `class="on"`) != truthy:
+				c.Oracle = &Verdict{OK: false, Class: cls, Detail: fmt.Sprintf("%s: %q, the variable holds %q", tpl, res.Out, want)}
+			}
+			r.Add(c)
 		}
 	}
 }
